@@ -9,7 +9,8 @@
 (* among the values visible to it (sorted models); Extract then picks a    *)
 (* graph-like kind, a set of boundary inputs and a non-empty set of        *)
 (* outputs among the root values and runs the TRANSCRIBED algorithm; the   *)
-(* theorems of Extract.tla are invariants of the resulting states.         *)
+(* theorems of Extract.tla are invariants of the resulting states (aux =   *)
+(* the instance tables, exp = the declarative outcome, res = the code's).  *)
 (* EmitInstance prints, once per completed instance, the instance, the     *)
 (* captures of every nested graph, the source denotation of every root     *)
 (* value and the DECLARATIVE expected outcome of every cut as one JSON     *)
@@ -34,7 +35,7 @@ vars == <<inst, k, aux, cut, exp, res>>
 
 LeafQuick    == {<<"in", "init">>}
 LeafBoth     == {<<"in", "init">>, <<"in", "both">>}
-LeafThorough == {<<"in", "init">>, <<"in", "in", "init">>, <<"in", "both">>}
+LeafExtra    == {<<"in", "in", "init">>, <<"in", "both">>}
 
 NoCut == [kind |-> "none", ins |-> {}, outs |-> {}]
 NoAux == [dep |-> <<>>, ext |-> <<>>, init |-> {}, den |-> <<>>]
@@ -102,7 +103,7 @@ Complete == k = Len(inst.gOf) /\ cut.kind = "none"
 HasCut   == cut.kind # "none"
 
 \* ---- emission (one line per completed instance)
-ExpC(T, ins, outs) == LET E == Expected(T, ins, outs) IN <<IF E.raise THEN 1 ELSE 0, E.nodes, E.inits>>
+ExpC(T, ins, outs) == LET E == Expected(T, ins, outs) IN <<IF E.raise THEN 1 ELSE 0, E.nodes, E.inits, E.frontier>>
 EmitInstance ==
   (Complete /\ EmitOn) =>
     PrintT(ToJson([g |-> inst.gOf, o |-> inst.owner, n |-> inst.nout, i |-> inst.ins, l |-> inst.leaf,
